@@ -24,6 +24,7 @@ func init() {
 			"R7 (ESP on the certificate upload — the gcsca function that receives the manifest and calls the gate): success after the gate is returned only where the key version's manifest entry was found or appended. " +
 			"R6 (ESP on storage/ops.WriteFile, the write primitive that R1–R4 treat as one event): it returns nil only after Storage.Writer, Write and Close (the commit of the object) all returned nil. " +
 			"Crash points at object granularity are the positions between write events, so R1+R2 give every prefix for every upload order. " +
+			"R4c inside the no-clobber gate the object name probed and written is the gate's own parameter, unmodified (the manifest and the readers use the caller's name). " +
 			"R8 (= C10.R5) rotate.Bootstrap calls Finalize only after both the root and the signing certificate were signed: one Finalize per operation, so no intermediate manifest names a primary key without a certificate. " +
 			"Not covered: partial writes inside one object, the dirty in-memory manifest after a failed Finalize, verification of the stored chain.",
 		Assumptions: []string{"go/types, go/ssa, VTA call graph", "storage/ops.WriteFile is the only write path to storage besides Client.Writer"},
@@ -292,6 +293,51 @@ func runC11(c *Ctx) {
 				c.S.Check(same, "R4b", load.FuncName(f)+":manifest entry.ObjectPath", c.pos(al.Pos()), "entry records the object name handed to the gate", "manifest entry records an object name other than the one uploaded through the gate")
 			}
 		}
+	}
+
+	// ---- R4c: the gate writes under the name it was given ----
+	// Inside the no-clobber gate the object name probed (Storage.Exists) and the object name written are the gate's
+	// own string parameter, unmodified: the callers record that very name in the manifest (R4b) and look the root
+	// bundle up under it, so a name cleaned or rewritten inside the gate stores the object where no reader looks.
+	for g := range gates {
+		var nameParams []*ssa.Parameter
+		for _, p := range g.Params {
+			if p.Type().String() == "string" {
+				nameParams = append(nameParams, p)
+			}
+		}
+		isNameParam := func(v ssa.Value) bool {
+			for _, p := range nameParams {
+				if v == ssa.Value(p) {
+					return true
+				}
+			}
+			return false
+		}
+		nSites := 0
+		for _, call := range callsIn(g, func(call ssa.CallInstruction) bool {
+			return isStorageWrite(call) || invokeIs(call, storPkg, "Client", "Exists")
+		}) {
+			for _, a := range call.Common().Args {
+				if a.Type().String() != "string" {
+					continue
+				}
+				if _, isK := a.(*ssa.Const); isK {
+					continue
+				}
+				// bucket names come from receiver fields; the object name is the remaining string operand
+				if u, ok := a.(*ssa.UnOp); ok {
+					if _, isField := u.X.(*ssa.FieldAddr); isField {
+						continue
+					}
+				}
+				nSites++
+				c.S.Check(isNameParam(a), "R4c", load.FuncName(g)+":"+callName(call)+" object name", c.pos(call.Pos()),
+					"the object name is the gate's parameter itself",
+					"the gate probes / writes the object under a name other than the one it was given ("+flow.Describe(a)+"): the manifest entry and the readers use the caller's name, so the stored object is not found")
+			}
+		}
+		c.S.Floor("R4c", "object-name operands of storage calls in "+load.FuncName(g), 2, nSites)
 	}
 
 	// ---- R7 every uploaded certificate has a manifest entry ----
